@@ -164,3 +164,46 @@ def first_diff(a, b):
     while i < n and a[i] == b[i]:
         i += 1
     return f'lengths {len(a)} vs {len(b)}; first difference at byte {i}: got {a[max(0,i-40):i+60]!r} expected {b[max(0,i-40):i+60]!r}'
+
+
+def stall_oracle(ctx, n, sigprefix='schedule'):
+    """A few tiny inputs under LONG stalls (hundreds of milliseconds between a worker's sends, so that at times
+    every polled source is silent for a long while): output must still be the reference merge."""
+    rng = e2e.Rng(ctx.seed * 104729 + 7)
+    failures, samples, cases = [], [], []
+    evals = 0
+    for k in range(n):
+        nsrc = rng.range(2, 3)
+        work = os.path.join(ctx.work, 'stall%d' % k)
+        os.makedirs(work, exist_ok=True)
+        srcs = make_sources(rng, work, nsrc, kinds=('plain',), max_msgs=3, min_msgs=1)
+        exp, merged = expected_stdout(srcs)
+        delay = '%d:%d' % (ctx.seed * 31 + k, rng.pick([700000, 900000]))
+        rc, out, err, wall, toks = run_with_trace(ctx, srcs, delay, 1000 + k)
+        evals += 1
+        desc = {'sources': [s['name'] for s in srcs], 'msgs': [len(s['msgs']) for s in srcs], 'delay': delay, 'wall_s': round(wall, 1)}
+        if rc != 0 or out != exp:
+            failures.append({'signature': sigprefix + ':stdout-differs-under-long-stalls', 'case': desc,
+                             'detail': f'rc={rc} ' + first_diff(out, exp) + f' trace tail={toks[-4:]}',
+                             'files': {s['name']: s['log'].data.hex() for s in srcs}, 'env': {'S4_VERIF_DELAYS': delay}})
+        cases.append((nsrc, toks, len(merged)))
+        if len(samples) < 1:
+            samples.append({'oracle': 'long stalls', 'case': desc, 'trace_events': len(toks)})
+    # one deterministic slow source: a compressed journal whose worker sleeps (H3) 1.2 s before its first datum,
+    # next to a text log; stdout must equal the run without the sleep
+    jz = os.path.join(core.REPO, 'logs/programs/journal/Ubuntu22-user-1000x3.journal.gz')
+    if os.path.exists(jz):
+        srcs = make_sources(rng, os.path.join(ctx.work, 'stall0'), 1, kinds=('plain',), max_msgs=5, min_msgs=2)
+        args = e2e.BASE_ARGS + [srcs[0]['path'], jz]
+        tmpd = os.path.join(ctx.work, 'stalltmp')
+        os.makedirs(tmpd, exist_ok=True)
+        rc0, out0, err0, _ = e2e.s4(args, env={'TMPDIR': tmpd}, timeout=60)
+        rc1, out1, err1, w1 = e2e.s4(args, env={'TMPDIR': tmpd, 'S4_VERIF_SLEEP_NTF_CREATED_MS': '1200'}, timeout=60)
+        evals += 2
+        if (rc0, out0) != (rc1, out1):
+            failures.append({'signature': sigprefix + ':stdout-differs-when-a-source-is-slow-to-start', 'case': {'sources': [srcs[0]['name'], os.path.basename(jz)], 'env': 'S4_VERIF_SLEEP_NTF_CREATED_MS=1200'},
+                             'detail': f'rc {rc1} vs {rc0}; ' + first_diff(out1, out0), 'files': {srcs[0]['name']: srcs[0]['log'].data.hex()}})
+    res = {'evaluations': evals, 'distinct_nontrivial': evals, 'failures': failures, 'samples': samples,
+           'rule': f'{n} tiny inputs (2-3 sources, 1-3 messages) under delay plans with stalls of up to ~1-3 s between sends; stdout must equal the reference merge'}
+    ctx.log(f'oracle long-stall: {evals} runs, {len(failures)} failures')
+    return res, cases
